@@ -1,16 +1,23 @@
 import DaskModel.Model.Order
 import DaskModel.Lemmas.OrderFrame
+import DaskModel.Lemmas.OrderNdeps
+import DaskModel.Lemmas.OrderNdepsComplete
 /-!
 # C06 — static task ordering is a total order consistent with dependencies
 
-`order()` is ~600 lines of heuristics. Two layers (DESIGN §5 C06):
+`order()` is ~600 lines of heuristics. Three layers (DESIGN §5 C06):
 * a **proved checker**: `validOrder g p = true ↔ ValidOrder g p` where `ValidOrder` is literally the statement
   (a priority for each key of the graph and for no other key, pairwise distinct, greater than the priorities of all
   dependencies inside the graph); every real `order` output of the correspondence run goes through the compiled checker;
 * the **frame** around the heuristic core after the `fix:` commit, proved about a transliteration of the
   normalisation loop (`strip`): `order_frame_valid` — stripped non-task leaves at `expected_len - 1 - j` plus *any* core
-  that emits the remaining internal keys once and dependencies-first (`CoreOK`) give a `ValidOrder`; ingredients
-  `strip_inv` (every dependent of a stripped leaf was stripped before it), `stripPrio_*`.
+  that emits the remaining internal keys once and dependencies-first (`CoreOK`, decided by `coreOKb`: `coreOKb_iff`)
+  give a `ValidOrder`; ingredients `strip_inv` (every dependent of a stripped leaf was stripped before it), `stripPrio_*`;
+* **cyclic graphs are rejected**, proved about transliterations of `ndependencies` (Kahn-style count with the explicit
+  stack `current`) and of the test `len(total_dependencies) != len(dsk)` composed with `strip` (`orderPrelude`):
+  `order_rejects_cyclic`, its converse `order_accepts_acyclic`, `order_raises_iff_cyclic`; the fuel the driver uses
+  suffices and no KeyError arises (`order_ndependencies_total`).
+Still validated only: that the heuristic core (critical-path walk, `process_runnables`, `add_to_result`) satisfies `CoreOK`.
 -/
 namespace Dask.C06
 open Dask.GraphAlg Dask.Order
@@ -321,5 +328,259 @@ example : framePrios 5 [3, 4] [2, 1, 0] = [(3, 4), (4, 3), (2, 0), (1, 1), (0, 2
 example : (strip [(0, []), (1, [0]), (2, [0, 1]), (3, [0, 2])] (fun k => decide (k = 1))).stripped = [3] := by decide
 /-- dependencies on keys outside the graph are ignored -/
 example : validOrder [(0, [7]), (1, [0, 9])] [(0, 0), (1, 1)] = true := by decide
+
+
+/-! ### cyclic graphs are rejected (the Kahn-style count `ndependencies` and the test `len(total_dependencies) != len(dsk)`) -/
+
+/-- (a1) every key that receives a total has all its dependencies in `result` *before* it (`total` is newest first) —
+    for arbitrary `dependents`, any fuel -/
+theorem ndependencies_deps_before {deps dnts : Graph} {fuel : Nat} (hn : (deps.map Prod.fst).Nodup)
+    {nn total : List (Key × Nat)} (h : ndependencies deps dnts fuel = some (.ok nn total)) :
+    (total.map Prod.fst).Nodup ∧ (∀ k ∈ total.map Prod.fst, k ∈ deps.map Prod.fst) ∧
+    ∀ pre k post, total.map Prod.fst = pre ++ k :: post → ∀ d, Edge deps k d → d ∈ post := by
+  obtain ⟨ht, hs, _⟩ := ndependencies_sound deps dnts fuel hn h
+  exact ⟨ht.nodup, hs, fun pre k post hsplit d e => ht.split pre k post hsplit d e⟩
+
+/-- (a2) hence a key with a total lies on no dependency cycle and depends on no cycle -/
+theorem ndependencies_total_acyclic {deps dnts : Graph} {fuel : Nat} (hn : (deps.map Prod.fst).Nodup)
+    {nn total : List (Key × Nat)} (h : ndependencies deps dnts fuel = some (.ok nn total)) {k : Key}
+    (hk : k ∈ total.map Prod.fst) : ¬ Path deps k k ∧ ∀ c, Path deps k c → ¬ Path deps c c := by
+  obtain ⟨ht, _, _⟩ := ndependencies_sound deps dnts fuel hn h
+  exact ⟨ht.no_cycle k hk, fun c p => ht.no_cycle c (ht.path_closed p hk)⟩
+
+/-- (a3) if the graph has a cycle, `total_dependencies` is strictly smaller than the graph: the test
+    `len(total_dependencies) != len(dsk)` fires -/
+theorem ndependencies_cyclic_short {deps dnts : Graph} {fuel : Nat} (hn : (deps.map Prod.fst).Nodup)
+    {nn total : List (Key × Nat)} (h : ndependencies deps dnts fuel = some (.ok nn total)) {c : Key}
+    (p : Path deps c c) : total.length < deps.length := by
+  obtain ⟨ht, hs, _⟩ := ndependencies_sound deps dnts fuel hn h
+  have hc : c ∈ deps.map Prod.fst := by
+    obtain ⟨x, e, _⟩ := p.cycle_first
+    exact edge_mem_keys e
+  have := length_lt_of_missing ht.nodup hs hc (fun hm => ht.no_cycle c hm p)
+  simpa using this
+
+/-- (a4) keys on a cycle are never stripped leaves or removed data roots: the cycle survives the normalisation loop -/
+theorem strip_keeps_cycle (g : Graph) (isTask : Key → Bool) (hn : (g.map Prod.fst).Nodup) {c : Key}
+    (p : Path g c c) : c ∈ (strip g isTask).alive ∧ Path (aliveDeps g (strip g isTask)) c c := by
+  have q := Dask.Order.strip_keeps_cycle g isTask hn p
+  refine ⟨?_, q⟩
+  obtain ⟨x, e, _⟩ := q.cycle_first
+  have := edge_mem_keys e
+  rwa [aliveDeps_keys] at this
+
+/-- **Cyclic graphs never get past the cycle test** (soundness half, any fuel): on a graph with duplicate-free keys
+    and a dependency cycle the model of `order` — normalisation loop, `ndependencies`, the test
+    `len(total_dependencies) != len(dsk)` — never proceeds to the ordering core; it ends in the raising branch, a
+    KeyError, or runs out of fuel. (`order_rejects_cyclic` below removes the last two alternatives.) -/
+theorem order_cyclic_never_proceeds (g : Graph) (isTask : Key → Bool) (hn : (g.map Prod.fst).Nodup) {c : Key}
+    (p : Path g c c) (fuel : Nat) (nn total : List (Key × Nat)) :
+    orderPrelude g isTask fuel ≠ some (.proceeds nn total) := by
+  intro h
+  unfold orderPrelude at h
+  simp only at h
+  split at h
+  · cases h
+  · cases h
+  · rename_i nn' total' hnd
+    have hi := strip_inv g isTask hn
+    have hn' : ((aliveDeps g (strip g isTask)).map Prod.fst).Nodup := by
+      rw [aliveDeps_keys]; exact hi.aliveNodup
+    have hlt := ndependencies_cyclic_short hn' hnd (Dask.Order.strip_keeps_cycle g isTask hn p)
+    have hlen : (aliveDeps g (strip g isTask)).length = (strip g isTask).alive.length := by
+      simp [aliveDeps]
+    split at h
+    · cases h
+    · rename_i hne
+      simp only [bne_iff_ne, ne_eq, Decidable.not_not] at hne
+      omega
+
+
+/-- the well-formedness `order` establishes before the normalisation loop: `g` lists, for every key of `dsk` *after the
+    external keys were added as data nodes*, its dependency set (duplicate-free, closed), each key once -/
+structure GraphWF (g : Graph) : Prop where
+  keysNodup : (g.map Prod.fst).Nodup
+  depsNodup : ∀ e ∈ g, e.2.Nodup
+  closed : ∀ e ∈ g, ∀ d ∈ e.2, d ∈ g.map Prod.fst
+
+theorem GraphWF.depsOf_nodup {g : Graph} (wf : GraphWF g) (k : Key) : (depsOf g k).Nodup := by
+  unfold depsOf
+  cases h : g.lookup k with
+  | none => simp
+  | some ds => exact wf.depsNodup (k, ds) (mem_of_lookup_some g k ds h)
+
+theorem GraphWF.depsOf_closed {g : Graph} (wf : GraphWF g) (k : Key) : ∀ d ∈ depsOf g k, d ∈ g.map Prod.fst := by
+  unfold depsOf
+  cases h : g.lookup k with
+  | none => simp
+  | some ds => exact wf.closed (k, ds) (mem_of_lookup_some g k ds h)
+
+/-- the fuel the driver gives to the cycle test: one loop iteration per remaining key, plus one -/
+def preludeFuel (g : Graph) (isTask : Key → Bool) : Nat := ndFuel (aliveDeps g (strip g isTask))
+
+/-- (b1) on the mappings `order` builds, `ndependencies` never raises KeyError and never runs out of the driver's fuel -/
+theorem order_ndependencies_total (g : Graph) (isTask : Key → Bool) (wf : GraphWF g) :
+    ∃ nn total, ndependencies (aliveDeps g (strip g isTask)) (aliveDependents g (strip g isTask))
+      (preludeFuel g isTask) = some (.ok nn total) := by
+  have hi := strip_inv g isTask wf.keysNodup
+  obtain ⟨total, _, h, _⟩ := ndependencies_total (alive_wf hi wf.depsOf_nodup wf.depsOf_closed)
+  exact ⟨_, total, h⟩
+
+/-- **Cyclic graphs are rejected.** For every graph with duplicate-free keys and closed duplicate-free dependency
+    sets, and every task/non-task labelling: if some key lies on a dependency cycle then the model of `order` —
+    normalisation loop `strip`, `ndependencies` with the driver's fuel, the test `len(total_dependencies) != len(dsk)` —
+    ends in the raising branch (not in a KeyError, not out of fuel, and never in the ordering core). -/
+theorem order_rejects_cyclic (g : Graph) (isTask : Key → Bool) (wf : GraphWF g) {c : Key} (p : Path g c c) :
+    orderPrelude g isTask (preludeFuel g isTask) = some .raisesCycle := by
+  obtain ⟨nn, total, h⟩ := order_ndependencies_total g isTask wf
+  have hi := strip_inv g isTask wf.keysNodup
+  have hn' : ((aliveDeps g (strip g isTask)).map Prod.fst).Nodup := by
+    rw [aliveDeps_keys]; exact hi.aliveNodup
+  have hlt := ndependencies_cyclic_short hn' h (Dask.Order.strip_keeps_cycle g isTask wf.keysNodup p)
+  have hlen : (aliveDeps g (strip g isTask)).length = (strip g isTask).alive.length := by simp [aliveDeps]
+  unfold orderPrelude
+  simp only [h]
+  have : (total.length != (strip g isTask).alive.length) = true := by
+    simp only [bne_iff_ne, ne_eq]; omega
+  simp [this]
+
+/-- **Acyclic graphs pass the cycle test** (the converse): no key on a cycle ⇒ every remaining key gets a total and
+    `order` proceeds to its core with `total_dependencies` defined on exactly the remaining keys. -/
+theorem order_accepts_acyclic (g : Graph) (isTask : Key → Bool) (wf : GraphWF g) (hac : ∀ k, ¬ Path g k k) :
+    ∃ nn total, orderPrelude g isTask (preludeFuel g isTask) = some (.proceeds nn total) ∧
+      (∀ k, k ∈ total.map Prod.fst ↔ k ∈ (strip g isTask).alive) := by
+  have hi := strip_inv g isTask wf.keysNodup
+  have hwf := alive_wf hi wf.depsOf_nodup wf.depsOf_closed
+  obtain ⟨total, h, hall⟩ := ndependencies_complete hwf (fun k p => hac k (path_of_alive hi p))
+  obtain ⟨ht, hs, _⟩ := ndependencies_sound _ _ _ hwf.keysNodup h
+  rw [aliveDeps_keys] at hall hs
+  refine ⟨(aliveDeps g (strip g isTask)).map (fun e => (e.1, e.2.length)), total, ?_, fun k => ⟨hs k, hall k⟩⟩
+  have h1 : total.length ≤ (strip g isTask).alive.length := by
+    have := List.Nodup.length_le_of_subset ht.nodup hs
+    simpa using this
+  have h2 : (strip g isTask).alive.length ≤ total.length := by
+    have := List.Nodup.length_le_of_subset hi.aliveNodup hall
+    simpa using this
+  unfold orderPrelude preludeFuel
+  simp only [h]
+  have : (total.length != (strip g isTask).alive.length) = false := by
+    simp only [bne_eq_false_iff_eq]; omega
+  simp [this]
+
+/-- the cycle test is exact: the model of `order` raises iff the graph has a dependency cycle -/
+theorem order_raises_iff_cyclic (g : Graph) (isTask : Key → Bool) (wf : GraphWF g) :
+    orderPrelude g isTask (preludeFuel g isTask) = some .raisesCycle ↔ ∃ c, Path g c c := by
+  constructor
+  · intro h
+    refine Classical.byContradiction fun hno => ?_
+    obtain ⟨nn, total, h', _⟩ := order_accepts_acyclic g isTask wf (fun k p => hno ⟨k, p⟩)
+    rw [h] at h'; cases h'
+  · rintro ⟨c, p⟩; exact order_rejects_cyclic g isTask wf p
+
+/-! non-vacuity of the hypotheses -/
+/-- a 3-cycle below a stripped non-task leaf (key 4 depends on the cycle key 1 and on the task 3) -/
+example : GraphWF [(0, [2]), (1, [0]), (2, [1]), (3, []), (4, [1, 3])] :=
+  ⟨by decide, by decide, by decide⟩
+example : Path [(0, [2]), (1, [0]), (2, [1]), (3, []), (4, [1, 3])] 0 0 :=
+  Path.cons (b := 2) ⟨[2], rfl, by simp⟩ (Path.cons (b := 1) ⟨[1], rfl, by simp⟩ (Path.single ⟨[0], rfl, by simp⟩))
+example : orderPrelude [(0, [2]), (1, [0]), (2, [1]), (3, []), (4, [1, 3])] (fun k => decide (k < 4))
+    (preludeFuel [(0, [2]), (1, [0]), (2, [1]), (3, []), (4, [1, 3])] (fun k => decide (k < 4))) = some .raisesCycle := by
+  decide
+example : (strip [(0, [2]), (1, [0]), (2, [1]), (3, []), (4, [1, 3])] (fun k => decide (k < 4))).stripped = [4] := by
+  decide
+
+
+/-! ### the decidable form of `CoreOK` (what the harness runs on the core order read off every real output) -/
+
+theorem coreTopoB_iff (g : Graph) (core : List Key) : ∀ (rest pre : List Key),
+    coreTopoB g core pre rest = true ↔
+      ∀ A k B, rest = A ++ k :: B → ∀ d ∈ depsOf g k, d ∈ core → d ∈ pre ∨ d ∈ A
+  | [], pre => by
+    simp only [coreTopoB, true_iff]
+    intro A k B h; simp at h
+  | k :: post, pre => by
+    simp only [coreTopoB, Bool.and_eq_true, List.all_eq_true, Bool.or_eq_true, Bool.not_eq_true',
+      List.contains_eq_mem, decide_eq_true_eq, decide_eq_false_iff_not, coreTopoB_iff g core post (k :: pre)]
+    constructor
+    · rintro ⟨h1, h2⟩ A k' B hsplit d hd hdc
+      cases A with
+      | nil =>
+        simp only [List.nil_append, List.cons.injEq] at hsplit
+        obtain ⟨rfl, rfl⟩ := hsplit
+        rcases h1 d hd with h | h
+        · exact absurd hdc h
+        · exact Or.inl h
+      | cons a A' =>
+        simp only [List.cons_append, List.cons.injEq] at hsplit
+        obtain ⟨rfl, hpost⟩ := hsplit
+        rcases h2 A' k' B hpost d hd hdc with h | h
+        · rcases List.mem_cons.mp h with rfl | h
+          · exact Or.inr (by simp)
+          · exact Or.inl h
+        · exact Or.inr (List.mem_cons_of_mem _ h)
+    · intro h
+      refine ⟨?_, ?_⟩
+      · intro d hd
+        by_cases hdc : d ∈ core
+        · rcases h [] k post rfl d hd hdc with h' | h'
+          · exact Or.inr h'
+          · simp at h'
+        · exact Or.inl hdc
+      · intro A k' B hpost d hd hdc
+        rcases h (k :: A) k' B (by simp [hpost]) d hd hdc with h' | h'
+        · exact Or.inl (List.mem_cons_of_mem _ h')
+        · rcases List.mem_cons.mp h' with rfl | h'
+          · exact Or.inl (by simp)
+          · exact Or.inr h'
+
+/-- **the executable check decides `CoreOK`** — so `order_frame_valid` applies to every real output whose core order
+    passes `coreOKb` -/
+theorem coreOKb_iff (g : Graph) (ext S core : List Key) : coreOKb g ext S core = true ↔ CoreOK g ext S core := by
+  unfold coreOKb
+  simp only [Bool.and_eq_true, nodupB_iff, List.all_eq_true, Bool.or_eq_true, Bool.not_eq_true',
+    List.contains_eq_mem, decide_eq_true_eq, decide_eq_false_iff_not, coreTopoB_iff]
+  constructor
+  · rintro ⟨⟨⟨h1, h2⟩, h3⟩, h4⟩
+    refine ⟨h1, ?_, ?_⟩
+    · intro k
+      constructor
+      · intro hk; exact ⟨(h2 k hk).1.1, (h2 k hk).1.2, (h2 k hk).2⟩
+      · rintro ⟨hk, hs, he⟩
+        rcases h3 k hk with (h | h) | h
+        · exact absurd h hs
+        · exact absurd h he
+        · exact h
+    · intro pre k post hsplit d hd hdc
+      rcases h4 pre k post hsplit d hd hdc with h | h
+      · simp at h
+      · exact h
+  · rintro ⟨h1, h2, h3⟩
+    refine ⟨⟨⟨h1, ?_⟩, ?_⟩, ?_⟩
+    · intro k hk
+      have := (h2 k).mp hk
+      exact ⟨⟨this.1, this.2.1⟩, this.2.2⟩
+    · intro k hk
+      by_cases hs : k ∈ S
+      · exact Or.inl (Or.inl hs)
+      · by_cases he : k ∈ ext
+        · exact Or.inl (Or.inr he)
+        · exact Or.inr ((h2 k).mpr ⟨hk, hs, he⟩)
+    · intro A k B hsplit d hd hdc
+      exact Or.inr (h3 A k B hsplit d hd hdc)
+
+/-- `order_frame_valid` in the form the harness uses: the compiled check on (graph with externals, external keys, core
+    order read off the real priorities) returned `true` ⇒ the dict `framePrios …` (compared with the real output key
+    by key) satisfies the statement -/
+theorem order_frame_valid_checked (g : Graph) (isTask : Key → Bool) (ext core : List Key)
+    (hn : (g.map Prod.fst).Nodup) (hext : ∀ e ∈ ext, depsOf g e = [])
+    (hc : coreOKb g ext (strip g isTask).stripped core = true) :
+    ValidOrder (g.filter (fun e => !ext.contains e.1)) (framePrios g.length (strip g isTask).stripped core) :=
+  order_frame_valid g isTask ext core hn hext ((coreOKb_iff g ext _ core).mp hc)
+
+/-- non-vacuity: data root 0 shared by the tasks 1, 2; non-task leaf 3 over both is stripped; core order 0, 1, 2 -/
+example : coreOKb [(0, []), (1, [0]), (2, [0]), (3, [1, 2])] []
+    (strip [(0, []), (1, [0]), (2, [0]), (3, [1, 2])] (fun k => decide (k = 1 ∨ k = 2))).stripped [0, 1, 2] = true := by
+  decide
+example : coreOKb [(0, []), (1, [0]), (2, [0]), (3, [1, 2])] [] [3] [1, 0, 2] = false := by decide
 
 end Dask.C06
